@@ -1,1 +1,3 @@
-import AllfedModel.Num.Basic
+-- root of the library: every property file (and through them every model and proof file)
+import AllfedModel.Props.C10
+import AllfedModel.Props.C18
